@@ -570,12 +570,467 @@ theorem inv_reconnect (st : St) (hinv : Inv st) (i : Nat) : Inv (qstep st (.reco
     · simp only [hj, if_false] at hs hf
       exact ha j k e hs hf
 
+
+/-- INCRBY either fails and changes nothing, or leaves the new number under the key -/
+theorem exec_incrby_cases (s : Srv) (k : String) (b : Int) :
+    ((s.exec (.incrby k b)).2 = .err ∧ (s.exec (.incrby k b)).1 = s) ∨
+    (∃ n dl, (s.exec (.incrby k b)).2 = .int n ∧ (s.exec (.incrby k b)).1.ks.find k = some ⟨.str (.num n), dl⟩) := by
+  simp only [Srv.exec, Srv.execPrim]
+  cases hf : s.ks.find k with
+  | none => right; exact ⟨b, none, rfl, KS.find_put_self_live _ _ _ rfl⟩
+  | some e =>
+    obtain ⟨v, dl⟩ := e
+    cases v with
+    | str x =>
+      cases x with
+      | num i => right; exact ⟨i + b, dl, rfl, KS.find_put_self_live _ _ _ ((by have := KS.find_live hf; simpa [REntry.live] using this))⟩
+      | blob h => left; exact ⟨rfl, rfl⟩
+    | _ => left; exact ⟨rfl, rfl⟩
+
+theorem inv_incr (st : St) (hinv : Inv st) (i : Nat) (k : String) (b : Int) (ttl : Option Nat) (hp : pxOf ttl = none) :
+    Inv (qstep st (.incr i k b ttl)).1 := by
+  simp only [qstep, step, hp]
+  have h0i : (st.cl i).queue = [] ∧ (st.cl i).started = (st.cl i).started ∧ (st.cl i).tracking = (st.cl i).tracking :=
+    ⟨(hinv.1 i).1, rfl, rfl⟩
+  generalize hst1 : (srvCmd st (.incrby k b)).1 = st1
+  rcases exec_incrby_cases st.srv k b with ⟨herr, hsame⟩ | ⟨n, dl, hint, hfind⟩
+  · -- refused (wrong type / not a number): nothing happens anywhere
+    obtain ⟨a1, a2, a3, a4, a5, b1, b2, b3, b4⟩ := after_write st st st1 st1 i (.incrby k b) rfl hinv rfl rfl (fun _ _ => rfl) h0i
+      hst1.symm rfl rfl (fun _ _ => rfl) ⟨rfl, rfl, rfl⟩
+    have hK : touched st.srv (.incrby k b) = [] := by simp [touched, herr]
+    rw [hK] at a3 a4
+    have hr : (srvCmd st (.incrby k b)).2 = .err := b4.trans herr
+    simp only [hr]
+    refine inv_after st st1 i [] hinv a1 a2 a3 a4 a5 ?_
+    intro hs
+    have hqi : (st1.cl i).queue = [] := by rw [a3 i]; simp
+    obtain ⟨d1, d2⟩ := deliverClient_nil (now st) (st1.cl i) hqi
+    refine ⟨?_, ?_⟩
+    · intro k'; simp only [Client.marked, d2, b2]; exact ((hinv.1 i).2 hs).2 k'
+    · intro k' e he
+      have he' : (st.cl i).lfind (now st) k' = some e := by simpa [Client.lfind, d1, b1] using he
+      have := hinv.2 i k' e hs he'
+      unfold agreeEntry at this ⊢
+      rw [a4 k' (by simp)]; exact this
+  · have hK : touched st.srv (.incrby k b) = [k] := by simp [touched, hint]
+    by_cases hn : n = 0
+    · -- the counter reached 0: nothing is remembered locally, the echo drops the writer's copy like everybody's
+      obtain ⟨a1, a2, a3, a4, a5, b1, b2, b3, b4⟩ := after_write st st st1 st1 i (.incrby k b) rfl hinv rfl rfl (fun _ _ => rfl) h0i
+        hst1.symm rfl rfl (fun _ _ => rfl) ⟨rfl, rfl, rfl⟩
+      rw [hK] at a3 a4
+      have hr : (srvCmd st (.incrby k b)).2 = .int n := b4.trans hint
+      simp only [hr, hn, ne_eq, not_true_eq_false, if_false]
+      refine inv_after st st1 i [k] hinv a1 a2 a3 a4 a5 ?_
+      intro hs
+      have htr := ((hinv.1 i).2 hs).1
+      have hnm := ((hinv.1 i).2 hs).2
+      have hq := a3 i
+      rw [htr, if_pos rfl] at hq
+      have hm1 : (st1.cl i).noMarks (now st) := by intro k'; simp only [Client.marked, b2]; exact hnm k'
+      obtain ⟨g1, g2⟩ := deliverClient_keys (now st) (st1.cl i) _ hq hm1
+      refine ⟨?_, ?_⟩
+      · intro k'; simp only [Client.marked, g2]; exact hm1 k'
+      · intro k' e he
+        have hk : k' ∉ [k] := by intro hk; simp [Client.lfind, g1 k', hk] at he
+        have he' : (st.cl i).lfind (now st) k' = some e := by simpa [Client.lfind, g1 k', hk, b1] using he
+        have := hinv.2 i k' e hs he'
+        unfold agreeEntry at this ⊢
+        rw [a4 k' hk]; exact this
+    · -- the new number is remembered and marked; the mark swallows the echo
+      obtain ⟨a1, a2, a3, a4, a5, b1, b2, b3, b4⟩ := after_write st st st1
+        { st1 with cl := upd st1.cl i (((st1.cl i).lset (now st) k (.val (.int n)) ttl).mark (now st) k) } i (.incrby k b) rfl hinv
+        rfl rfl (fun _ _ => rfl) h0i hst1.symm rfl rfl (fun j hj => by simp [upd, hj]) (by simp [upd, Client.lset, Client.mark])
+      rw [hK] at a3 a4
+      have hr : (srvCmd st (.incrby k b)).2 = .int n := b4.trans hint
+      simp only [hr, hn, ne_eq, not_false_eq_true, if_true]
+      refine inv_after st _ i [k] hinv a1 a2 a3 a4 a5 ?_
+      intro hs
+      have htr : (st.cl i).tracking = true := ((hinv.1 i).2 hs).1
+      have hnm : (st.cl i).noMarks (now st) := ((hinv.1 i).2 hs).2
+      generalize hci : (({ st1 with cl := upd st1.cl i (((st1.cl i).lset (now st) k (.val (.int n)) ttl).mark (now st) k) } : St).cl i) = ci
+      have hqi : ci.queue = [Msg.keys [k]] := by rw [← hci, a3 i, htr]; rfl
+      have hmi : ci.marks = ((st.cl i).mark (now st) k).marks := by
+        rw [← hci]; simp only [upd, if_true, Client.lset, Client.mark]; rw [b2]
+      have hli : ci.loc = ((st.cl i).lset (now st) k (.val (.int n)) ttl).loc := by
+        rw [← hci]; simp only [upd, if_true, Client.lset, Client.lfind, Client.mark]; rw [b1]
+      have hmk : ci.marked (now st) k = true := by
+        simp only [Client.marked, hmi]; exact marked_mark_self _ _ _
+      have hd : deliverClient (now st) ci = ({ ci with queue := [] } : Client).unmark k := by
+        simp only [deliverClient, hqi, List.foldl_cons, List.foldl_nil, Client.applyMsg, Client.applyKey]
+        have : ({ ci with queue := [] } : Client).marked (now st) k = true := hmk
+        simp [this]
+      rw [hd]
+      refine ⟨?_, ?_⟩
+      · intro k'
+        by_cases hk : k' = k
+        · subst hk; simp [Client.unmark, Client.marked]
+        · have := hnm k'
+          simpa [Client.unmark, Client.marked, hmi, Client.mark, hk] using this
+      · intro k' e he
+        have he' : ((st.cl i).lset (now st) k (.val (.int n)) ttl).lfind (now st) k' = some e := by
+          simpa [Client.lfind, Client.unmark, hli] using he
+        rcases lfind_lset he' with ⟨rfl, hval⟩ | ⟨hne, hold⟩
+        · unfold agreeEntry; rw [hval]
+          show srvValue st1 k' = some (.int n)
+          simp only [srvValue, b3, hfind]; rfl
+        · have := hinv.2 i k' e hs hold
+          unfold agreeEntry at this ⊢
+          rw [a4 k' (by simpa using hne)]; exact this
+
+
+theorem foldl_absent_fields (now : Nat) (ks : List String) :
+    ∀ (c : Client), let c' := ks.foldl (fun c k => c.lset now k .absent none) c
+      c'.queue = c.queue ∧ c'.started = c.started ∧ c'.tracking = c.tracking ∧ c'.marks = c.marks := by
+  induction ks with
+  | nil => intro c; exact ⟨rfl, rfl, rfl, rfl⟩
+  | cons a ks ih => intro c; simp only [List.foldl_cons]; exact ih (c.lset now a .absent none)
+
+theorem lfind_foldl_absent (now : Nat) (ks : List String) :
+    ∀ (c : Client) (k' : String) (e : LEntry),
+      (ks.foldl (fun c k => c.lset now k .absent none) c).lfind now k' = some e →
+      (k' ∈ ks ∧ e.val = .absent) ∨ (k' ∉ ks ∧ c.lfind now k' = some e) := by
+  induction ks with
+  | nil => intro c k' e h; exact Or.inr ⟨by simp, h⟩
+  | cons a ks ih =>
+    intro c k' e h
+    simp only [List.foldl_cons] at h
+    rcases ih _ k' e h with ⟨hm, hv⟩ | ⟨hm, hf⟩
+    · exact Or.inl ⟨by simp [hm], hv⟩
+    · rcases lfind_lset hf with ⟨rfl, hv⟩ | ⟨hne, hold⟩
+      · exact Or.inl ⟨by simp, hv⟩
+      · exact Or.inr ⟨by simp [hm, hne], hold⟩
+
+theorem inv_deleteMany (st : St) (hinv : Inv st) (i : Nat) (ks : List String) : Inv (qstep st (.deleteMany i ks)).1 := by
+  simp only [qstep, step]
+  generalize hc : ks.foldl (fun c k => c.lset (now st) k .absent none) (st.cl i) = c
+  obtain ⟨q1, q2, q3, q4⟩ := foldl_absent_fields (now st) ks (st.cl i)
+  rw [hc] at q1 q2 q3 q4
+  generalize hst0 : ({ st with cl := upd st.cl i c } : St) = st0
+  have h0srv : st0.srv = st.srv := by subst hst0; rfl
+  have h0enc : st0.isEnc = st.isEnc := by subst hst0; rfl
+  have h0cl : ∀ j, j ≠ i → st0.cl j = st.cl j := by intro j hj; subst hst0; simp [upd, hj]
+  have hcli : st0.cl i = c := by subst hst0; simp [upd]
+  have h0i : (st0.cl i).queue = [] ∧ (st0.cl i).started = (st.cl i).started ∧ (st0.cl i).tracking = (st.cl i).tracking := by
+    rw [hcli, q1, q2, q3]; exact ⟨(hinv.1 i).1, rfl, rfl⟩
+  by_cases hks : ks.isEmpty = true
+  · -- nothing to delete: nothing changes
+    have : ks = [] := by simpa using hks
+    subst this
+    simp only [List.isEmpty_nil, if_true]
+    simp only [List.foldl_nil] at hc
+    subst hc
+    refine inv_local_only st st0 i hinv h0srv h0enc h0cl ⟨h0i.1, h0i.2.1, h0i.2.2, fun hs => ?_⟩ ?_
+    · intro k; simp only [Client.marked, hcli]; exact ((hinv.1 i).2 hs).2 k
+    · intro hs k e he; rw [hcli] at he; exact hinv.2 i k e hs he
+  · simp only [hks, Bool.false_eq_true, if_false]
+    generalize hst1 : (srvCmd st0 (.unlink ks)).1 = st1
+    obtain ⟨a1, a2, a3, a4, a5, b1, b2, b3, b4⟩ := after_write st st0 st1 st1 i (.unlink ks) rfl hinv h0srv h0enc h0cl h0i hst1.symm
+      rfl rfl (fun _ _ => rfl) ⟨rfl, rfl, rfl⟩
+    refine inv_after st st1 i _ hinv a1 a2 a3 a4 a5 ?_
+    intro hs
+    have htr : (st.cl i).tracking = true := ((hinv.1 i).2 hs).1
+    have hnm : (st.cl i).noMarks (now st) := ((hinv.1 i).2 hs).2
+    have hq := a3 i
+    rw [htr, if_pos rfl] at hq
+    have hm1 : (st1.cl i).noMarks (now st) := by
+      intro k'; simp only [Client.marked, b2, hcli, q4]; exact hnm k'
+    obtain ⟨g1, g2⟩ := deliverClient_keys (now st) (st1.cl i) _ hq hm1
+    refine ⟨?_, ?_⟩
+    · intro k'; simp only [Client.marked, g2]; exact hm1 k'
+    · intro k' e he
+      have hk : k' ∉ touched st.srv (.unlink ks) := by
+        intro hk; simp [Client.lfind, g1 k', hk] at he
+      have he' : c.lfind (now st) k' = some e := by
+        simpa [Client.lfind, g1 k', hk, b1, hcli] using he
+      unfold agreeEntry
+      rw [a4 k' hk]
+      rw [← hc] at he'
+      rcases lfind_foldl_absent (now st) ks (st.cl i) k' e he' with ⟨hm, hval⟩ | ⟨_, hold⟩
+      · rw [hval]
+        apply srvValue_of_absent
+        simp only [touched, List.mem_filter, not_and] at hk
+        simpa using hk hm
+      · exact hinv.2 i k' e hs hold
+
+
+/-- a pattern delete: the writer forgets its matching local entries and the server unlinks the list `L` -/
+theorem inv_unlink_after_ldelMatch (st : St) (hinv : Inv st) (i : Nat) (pat : String) (L : List String) :
+    Inv (deliverAll (srvCmd ({ st with cl := upd st.cl i ((st.cl i).ldelMatch pat) } : St) (.unlink L)).1) := by
+  generalize hst0 : ({ st with cl := upd st.cl i ((st.cl i).ldelMatch pat) } : St) = st0
+  have h0srv : st0.srv = st.srv := by subst hst0; rfl
+  have h0enc : st0.isEnc = st.isEnc := by subst hst0; rfl
+  have h0cl : ∀ j, j ≠ i → st0.cl j = st.cl j := by intro j hj; subst hst0; simp [upd, hj]
+  have hcli : st0.cl i = (st.cl i).ldelMatch pat := by subst hst0; simp [upd]
+  have h0i : (st0.cl i).queue = [] ∧ (st0.cl i).started = (st.cl i).started ∧ (st0.cl i).tracking = (st.cl i).tracking := by
+    rw [hcli]; exact ⟨(hinv.1 i).1, rfl, rfl⟩
+  generalize hst1 : (srvCmd st0 (.unlink L)).1 = st1
+  obtain ⟨a1, a2, a3, a4, a5, b1, b2, b3, b4⟩ := after_write st st0 st1 st1 i (.unlink L) rfl hinv h0srv h0enc h0cl h0i hst1.symm
+    rfl rfl (fun _ _ => rfl) ⟨rfl, rfl, rfl⟩
+  refine inv_after st st1 i _ hinv a1 a2 a3 a4 a5 ?_
+  intro hs
+  have htr : (st.cl i).tracking = true := ((hinv.1 i).2 hs).1
+  have hnm : (st.cl i).noMarks (now st) := ((hinv.1 i).2 hs).2
+  have hq := a3 i
+  rw [htr, if_pos rfl] at hq
+  have hm1 : (st1.cl i).noMarks (now st) := by
+    intro k'; simp only [Client.marked, b2, hcli, Client.ldelMatch]; exact hnm k'
+  obtain ⟨g1, g2⟩ := deliverClient_keys (now st) (st1.cl i) _ hq hm1
+  refine ⟨?_, ?_⟩
+  · intro k'; simp only [Client.marked, g2]; exact hm1 k'
+  · intro k' e he
+    have hk : k' ∉ touched st.srv (.unlink L) := by
+      intro hk; simp [Client.lfind, g1 k', hk] at he
+    have he' : (st.cl i).lfind (now st) k' = some e := by
+      have : ((st.cl i).ldelMatch pat).lfind (now st) k' = some e := by
+        simpa [Client.lfind, g1 k', hk, b1, hcli] using he
+      simp only [Client.lfind, Client.ldelMatch] at this ⊢
+      by_cases hg : glob pat k' = true
+      · simp [hg] at this
+      · simpa [hg] using this
+    have := hinv.2 i k' e hs he'
+    unfold agreeEntry at this ⊢
+    rw [a4 k' hk]; exact this
+
+theorem inv_deleteMatch (st : St) (hinv : Inv st) (i : Nat) (pat : String) : Inv (qstep st (.deleteMatch i pat)).1 := by
+  simp only [qstep, step]
+  split
+  · exact inv_unlink_after_ldelMatch st hinv i pat _
+  · exact inv_unlink_after_ldelMatch st hinv i pat _
+
+
+/-- a positive PEXPIRE keeps the value -/
+theorem exec_pexpire_find (s : Srv) (k : String) (ms : Nat) (hms : 0 < ms) :
+    (s.exec (.pexpire k ms)).1.ks.find k = (s.ks.find k).map fun e => { e with dl := some (s.ks.now + ms) } := by
+  simp only [Srv.exec, Srv.execPrim]
+  cases hf : s.ks.find k with
+  | none => simp [hf]
+  | some e =>
+    have h1 : ¬ ((ms : Int) ≤ 0) := by omega
+    simp only [h1, if_false, Option.map_some, Int.toNat_natCast]
+    apply KS.find_put_self_live
+    simp [REntry.live]; omega
+
+theorem inv_expire_with (st : St) (hinv : Inv st) (i : Nat) (k : String) (ms : Nat) (hms : 0 < ms) (c' : Client)
+    (hc' : (match (st.cl i).lfind (now st) k with
+      | some ⟨.val _, _⟩ => ((st.cl i).lexpire (now st) k ms).mark (now st) k
+      | _ => st.cl i) = c') :
+    Inv (deliverAll (srvCmd ({ st with cl := upd st.cl i c' } : St) (.pexpire k ms)).1) := by
+  have hfields : c'.queue = (st.cl i).queue ∧ c'.started = (st.cl i).started ∧ c'.tracking = (st.cl i).tracking := by
+    rw [← hc']
+    split
+    · rename_i v dl hf
+      refine ⟨?_, ?_, ?_⟩ <;> simp [Client.lexpire, hf, Client.lset, Client.mark]
+    · exact ⟨rfl, rfl, rfl⟩
+  generalize hst0 : ({ st with cl := upd st.cl i c' } : St) = st0
+  have h0srv : st0.srv = st.srv := by subst hst0; rfl
+  have h0enc : st0.isEnc = st.isEnc := by subst hst0; rfl
+  have h0cl : ∀ j, j ≠ i → st0.cl j = st.cl j := by intro j hj; subst hst0; simp [upd, hj]
+  have hcli : st0.cl i = c' := by subst hst0; simp [upd]
+  have h0i : (st0.cl i).queue = [] ∧ (st0.cl i).started = (st.cl i).started ∧ (st0.cl i).tracking = (st.cl i).tracking := by
+    rw [hcli, hfields.1, hfields.2.1, hfields.2.2]; exact ⟨(hinv.1 i).1, rfl, rfl⟩
+  generalize hst1 : (srvCmd st0 (.pexpire k ms)).1 = st1
+  obtain ⟨a1, a2, a3, a4, a5, b1, b2, b3, b4⟩ := after_write st st0 st1 st1 i (.pexpire k ms) rfl hinv h0srv h0enc h0cl h0i hst1.symm
+    rfl rfl (fun _ _ => rfl) ⟨rfl, rfl, rfl⟩
+  refine inv_after st st1 i _ hinv a1 a2 a3 a4 a5 ?_
+  intro hs
+  have htr : (st.cl i).tracking = true := ((hinv.1 i).2 hs).1
+  have hnm : (st.cl i).noMarks (now st) := ((hinv.1 i).2 hs).2
+  have hq := a3 i
+  rw [htr, if_pos rfl] at hq
+  -- the value of k on the server is what it was
+  have hval_k : srvValue st1 k = srvValue st k := by
+    simp only [srvValue, b3, exec_pexpire_find st.srv k ms hms]
+    have henc1 : st1.isEnc = st.isEnc := by rw [← hst1]; exact h0enc
+    cases hf : st.srv.ks.find k with
+    | none => rfl
+    | some e => obtain ⟨v, dl⟩ := e; cases v <;> simp [decodeS, henc1]
+  have hval : ∀ k', srvValue st1 k' = srvValue st k' := by
+    intro k'
+    by_cases hk : k' = k
+    · subst hk; exact hval_k
+    · apply a4; simp only [touched]; split <;> simp [hk]
+  cases hlf : (st.cl i).lfind (now st) k with
+  | some e =>
+    obtain ⟨lv, ldl⟩ := e
+    cases lv with
+    | val v =>
+      -- re-timed locally and marked; the key is on the server (agreement), so the echo comes and the mark swallows it
+      have hsv : srvValue st k = some v := by
+        have := hinv.2 i k _ hs hlf; simpa [agreeEntry] using this
+      have hpres : st.srv.ks.present k = true := by
+        simp only [srvValue] at hsv
+        cases hfk : st.srv.ks.find k with
+        | none => simp [hfk] at hsv
+        | some se => simp [KS.present, hfk]
+      have hK : touched st.srv (.pexpire k ms) = [k] := by simp [touched, hpres]
+      rw [hK] at hq
+      have hle : (st.cl i).lexpire (now st) k ms = (st.cl i).lset (now st) k (.val v) (some ms) := by
+        simp only [Client.lexpire, hlf]
+      have hc'' : c' = ((st.cl i).lset (now st) k (.val v) (some ms)).mark (now st) k := by rw [← hc', hlf, hle]
+      have hmk : (st1.cl i).marked (now st) k = true := by
+        simp only [Client.marked, b2, hcli, hc'']; exact marked_mark_self _ _ _
+      have hd : deliverClient (now st) (st1.cl i) = ({ st1.cl i with queue := [] } : Client).unmark k := by
+        simp only [deliverClient, hq, List.map_cons, List.map_nil, List.foldl_cons, List.foldl_nil, Client.applyMsg, Client.applyKey]
+        have : ({ st1.cl i with queue := [] } : Client).marked (now st) k = true := hmk
+        simp [this]
+      rw [hd]
+      refine ⟨?_, ?_⟩
+      · intro k'
+        by_cases hk : k' = k
+        · subst hk; simp [Client.unmark, Client.marked]
+        · have := hnm k'
+          simpa [Client.unmark, Client.marked, b2, hcli, hc'', Client.mark, Client.lset, hk] using this
+      · intro k' e he
+        have he' : ((st.cl i).lset (now st) k (.val v) (some ms)).lfind (now st) k' = some e := by
+          simpa [Client.lfind, Client.unmark, b1, hcli, hc'', Client.mark] using he
+        unfold agreeEntry
+        rw [hval k']
+        rcases lfind_lset he' with ⟨rfl, hv⟩ | ⟨_, hold⟩
+        · rw [hv]; exact hsv
+        · exact hinv.2 i k' e hs hold
+    | absent =>
+      have hc'' : c' = st.cl i := by rw [← hc', hlf]
+      have hm1 : (st1.cl i).noMarks (now st) := by intro k'; simp only [Client.marked, b2, hcli, hc'']; exact hnm k'
+      obtain ⟨g1, g2⟩ := deliverClient_keys (now st) (st1.cl i) _ hq hm1
+      refine ⟨fun k' => by simp only [Client.marked, g2]; exact hm1 k', ?_⟩
+      intro k' e he
+      have hk : k' ∉ touched st.srv (.pexpire k ms) := by intro hk; simp [Client.lfind, g1 k', hk] at he
+      have he' : (st.cl i).lfind (now st) k' = some e := by simpa [Client.lfind, g1 k', hk, b1, hcli, hc''] using he
+      have := hinv.2 i k' e hs he'
+      unfold agreeEntry at this ⊢
+      rw [hval k']; exact this
+  | none =>
+    have hc'' : c' = st.cl i := by rw [← hc', hlf]
+    have hm1 : (st1.cl i).noMarks (now st) := by intro k'; simp only [Client.marked, b2, hcli, hc'']; exact hnm k'
+    obtain ⟨g1, g2⟩ := deliverClient_keys (now st) (st1.cl i) _ hq hm1
+    refine ⟨fun k' => by simp only [Client.marked, g2]; exact hm1 k', ?_⟩
+    intro k' e he
+    have hk : k' ∉ touched st.srv (.pexpire k ms) := by intro hk; simp [Client.lfind, g1 k', hk] at he
+    have he' : (st.cl i).lfind (now st) k' = some e := by simpa [Client.lfind, g1 k', hk, b1, hcli, hc''] using he
+    have := hinv.2 i k' e hs he'
+    unfold agreeEntry at this ⊢
+    rw [hval k']; exact this
+
+theorem inv_expire (st : St) (hinv : Inv st) (i : Nat) (k : String) (ms : Nat) (hms : 0 < ms) :
+    Inv (qstep st (.expire i k ms)).1 := by
+  simp only [qstep, step]
+  split
+  · rename_i v dl hf
+    exact inv_expire_with st hinv i k ms hms _ (by rw [hf])
+  · rename_i hne
+    refine inv_expire_with st hinv i k ms hms _ ?_
+    split
+    · rename_i v dl hf; exact absurd hf (hne v dl)
+    · rfl
+
+
+/-- the local copy after a `get_many`: the misses are remembered, one key after the other -/
+def gmStep (st : St) (c : Client) (c' : Client) (k : String) : Client :=
+  match (if c.started then c.lfind (now st) k else none) with
+  | some _ => c'
+  | none => match srvValue st k with
+    | some v => c'.lset (now st) k (.val v) none
+    | none => c'.lset (now st) k .absent none
+
+theorem gmStep_ok (st : St) (c c' : Client) (k : String)
+    (hf : c'.queue = c.queue ∧ c'.started = c.started ∧ c'.tracking = c.tracking ∧ c'.marks = c.marks)
+    (hP : ∀ k' e, c'.lfind (now st) k' = some e → agreeEntry st k' e) :
+    ((gmStep st c c' k).queue = c.queue ∧ (gmStep st c c' k).started = c.started ∧ (gmStep st c c' k).tracking = c.tracking ∧
+      (gmStep st c c' k).marks = c.marks) ∧
+    (∀ k' e, (gmStep st c c' k).lfind (now st) k' = some e → agreeEntry st k' e) := by
+  unfold gmStep
+  split
+  · exact ⟨hf, hP⟩
+  · split
+    · rename_i v hv
+      refine ⟨by simpa [Client.lset] using hf, fun k' e he => ?_⟩
+      rcases lfind_lset he with ⟨rfl, hval⟩ | ⟨_, hold⟩
+      · unfold agreeEntry; rw [hval]; exact hv
+      · exact hP k' e hold
+    · rename_i hv
+      refine ⟨by simpa [Client.lset] using hf, fun k' e he => ?_⟩
+      rcases lfind_lset he with ⟨rfl, hval⟩ | ⟨_, hold⟩
+      · unfold agreeEntry; rw [hval]; exact hv
+      · exact hP k' e hold
+
+theorem gmFold_ok (st : St) (c : Client) (ks : List String) :
+    ∀ c', (c'.queue = c.queue ∧ c'.started = c.started ∧ c'.tracking = c.tracking ∧ c'.marks = c.marks) →
+      (∀ k' e, c'.lfind (now st) k' = some e → agreeEntry st k' e) →
+      let r := ks.foldl (gmStep st c) c'
+      (r.queue = c.queue ∧ r.started = c.started ∧ r.tracking = c.tracking ∧ r.marks = c.marks) ∧
+      (∀ k' e, r.lfind (now st) k' = some e → agreeEntry st k' e) := by
+  induction ks with
+  | nil => intro c' hf hP; exact ⟨hf, hP⟩
+  | cons a ks ih =>
+    intro c' hf hP
+    simp only [List.foldl_cons]
+    obtain ⟨h1, h2⟩ := gmStep_ok st c c' a hf hP
+    exact ih _ h1 h2
+
+theorem inv_getMany (st : St) (hinv : Inv st) (i : Nat) (ks : List String) : Inv (qstep st (.getMany i ks)).1 := by
+  simp only [qstep, step]
+  show Inv (deliverAll ({ st with cl := upd st.cl i (ks.foldl (gmStep st (st.cl i)) (st.cl i)) } : St))
+  by_cases hs : (st.cl i).started = true
+  · obtain ⟨⟨q1, q2, q3, q4⟩, hP⟩ := gmFold_ok st (st.cl i) ks (st.cl i) ⟨rfl, rfl, rfl, rfl⟩ (fun k' e he => hinv.2 i k' e hs he)
+    refine inv_local_only st _ i hinv rfl rfl (fun j hj => by simp [upd, hj]) ?_ ?_
+    · simp only [upd, if_true]
+      refine ⟨q1.trans (hinv.1 i).1, q2, q3, fun hs' k => ?_⟩
+      simp only [Client.marked, q4]; exact ((hinv.1 i).2 hs').2 k
+    · intro _ k' e he
+      simp only [upd, if_true] at he
+      exact hP k' e he
+  · -- a stopped client: nothing is claimed about its local copy
+    have hfields : ∀ (c' : Client), (c'.queue = (st.cl i).queue ∧ c'.started = (st.cl i).started ∧ c'.tracking = (st.cl i).tracking ∧
+        c'.marks = (st.cl i).marks) →
+        let r := ks.foldl (gmStep st (st.cl i)) c'
+        r.queue = (st.cl i).queue ∧ r.started = (st.cl i).started ∧ r.tracking = (st.cl i).tracking ∧ r.marks = (st.cl i).marks := by
+      induction ks with
+      | nil => intro c' h; exact h
+      | cons a ks ih =>
+        intro c' h
+        simp only [List.foldl_cons]
+        apply ih
+        unfold gmStep
+        split
+        · exact h
+        · split <;> simpa [Client.lset] using h
+    obtain ⟨q1, q2, q3, q4⟩ := hfields (st.cl i) ⟨rfl, rfl, rfl, rfl⟩
+    refine inv_local_only st _ i hinv rfl rfl (fun j hj => by simp [upd, hj]) ?_ ?_
+    · simp only [upd, if_true]
+      exact ⟨q1.trans (hinv.1 i).1, q2, q3, fun hs' => absurd hs' hs⟩
+    · intro hs'; exact absurd hs' hs
+
+/-- under agreement `get_many` answers what the server holds, key by key -/
+theorem getMany_eq_server (st : St) (ha : Agree st) (i : Nat) (ks : List String) :
+    (step st (.getMany i ks)).2 = .vals (ks.map (srvValue st)) := by
+  simp only [step]
+  congr 1
+  apply List.map_congr_left
+  intro k _
+  cases hs : (st.cl i).started with
+  | false => simp
+  | true =>
+    simp only [if_true]
+    cases hf : (st.cl i).lfind (now st) k with
+    | none => rfl
+    | some e =>
+      have := ha i k e hs hf
+      obtain ⟨v, dl⟩ := e
+      cases v with
+      | val x => simp only [agreeEntry] at this; simp [this]
+      | absent => simp only [agreeEntry] at this; simp [this]
+
 /-- the commands for which preservation of the quiescent-point invariant is proved -/
 def Covered (isEnc : String → Bool) : Op → Prop
   | .get _ _ => True
   | .exists_ _ _ => True
   | .set _ _ v _ _ => (match v with | .int _ => True | .obj h => isEnc h = true)
   | .delete _ _ => True
+  | .getMany _ _ => True
+  | .incr _ _ _ ttl => pxOf ttl = none            -- (the TTL-arming variant goes through the Lua script: not yet covered)
+  | .deleteMany _ _ => True
+  | .deleteMatch _ _ => True
+  | .expire _ _ ms => 0 < ms                      -- (`expire(k, 0)` deletes the key on the server: outside the alphabet)
   | .clear _ => True
   | .drop _ => True
   | .reconnect _ => True
@@ -612,6 +1067,26 @@ theorem inv2_qstep (st : St) (h : Inv2 st) (op : Op) (hc : Covered st.isEnc op) 
     split <;> exact domOK_exec _ _ rfl hdom
   | delete i k =>
     refine ⟨inv_delete st hinv i k, ?_⟩
+    simp only [qstep, deliverAll, step]
+    exact domOK_exec _ _ rfl hdom
+  | getMany i ks => exact ⟨inv_getMany st hinv i ks, hdom⟩
+  | incr i k b ttl =>
+    have hp : pxOf ttl = none := hc
+    refine ⟨inv_incr st hinv i k b ttl hp, ?_⟩
+    simp only [qstep, deliverAll, step, hp]
+    (repeat' split) <;> exact domOK_exec _ _ rfl hdom
+  | deleteMany i ks =>
+    refine ⟨inv_deleteMany st hinv i ks, ?_⟩
+    simp only [qstep, deliverAll, step]
+    split
+    · exact hdom
+    · exact domOK_exec _ _ rfl hdom
+  | deleteMatch i pat =>
+    refine ⟨inv_deleteMatch st hinv i pat, ?_⟩
+    simp only [qstep, deliverAll, step]
+    split <;> exact domOK_exec _ _ rfl hdom
+  | expire i k ms =>
+    refine ⟨inv_expire st hinv i k ms hc, ?_⟩
     simp only [qstep, deliverAll, step]
     exact domOK_exec _ _ rfl hdom
   | clear i =>
